@@ -6,7 +6,13 @@ globals().update(
         pid="C20",
         props=["JaqalProofs/Props/C20.lean"],
         targets=["JaqalProofs.Props.C20"],
-        diffs=[("harness.agents.gen_diff", 2500, 20000)],
+        diffs=[
+            ("harness.agents.gen_diff", 2500, 20000),
+            # circuit-level oracles only: C20 speaks about circuits; node-level comparisons across classes are measured, not judged
+            ("harness.agents.c20_pairs", 3000, 20000, {"eq_never_raises", "eq_symmetric", "eq_reflexive", "equal_pair_has_same_declarations_and_meaning",
+                                                     "declaration_change_is_unequal", "meaning_change_is_unequal",
+                                                     "different_declarations_or_meaning_different_text", "reparse_equal"}),
+        ],
         trusted=[
             STD_TRUST,
             "hand-written models JaqalModel/Model/PyEq.lean (every __eq__ of jaqalpaq.core transcribed: reflected-operand fallback, and-short-circuit, zip_longest padding, dict equality as key set + per-key equality, the fundamental/alias branch of Register.__eq__) and Model/Generator.lean (generate_jaqal_program byte for byte)",
